@@ -590,6 +590,116 @@ fn raw_trees(src: &str) -> Vec<Node> {
     v
 }
 
+// ---------------------------------------------------------------- directed family: sortedness marks x tied extremes
+
+/// rewrite rules whose fused implementation has, or could plausibly get, a shortcut on the
+/// sortedness marks of its argument: (rule name, left-hand side taking one argument)
+const MARK_RULES: &[(&str, &str)] = &[
+    ("first-rise", "⊢⍏"),
+    ("last-rise", "⊣⍏"),
+    ("first-fall", "⊢⍖"),
+    ("last-fall", "⊣⍖"),
+    ("first-sort", "⊢⍆"),
+    ("last-sort", "⊣⍆"),
+    ("sort-up", "⊏⍏."),
+    ("sort-down", "⊏⍖."),
+    ("sort-reverse", "⇌⍆"),
+    ("sortdown-reverse", "⇌⇌⍆"),
+    ("reverse-first", "⊢⇌"),
+    ("reverse-last", "⊣⇌"),
+    ("count-unique", "⧻◴"),
+    ("first-where", "⊢⊚"),
+    ("last-where", "⊣⊚"),
+    ("len-where", "⧻⊚"),
+    ("all-same-rot", "≍↻1."),
+    ("all-same-by", "≍⊸(↻1)"),
+    ("all-same-le", "≤1⧻◴"),
+    ("one-unique-eq", "=1⧻◴"),
+    ("one-unique-ne", "≠1⧻◴"),
+    ("all-same-stencil", "/×⧈≍"),
+    ("sorted-up-by", "≍⊸⍆"),
+    ("sorted-up-on", "≍⟜⍆"),
+    ("reduce-depth-max", "≡/↥"),
+    ("reduce-depth-min", "≡/↧"),
+    ("reduce-depth", "≡/+"),
+    ("pseudo-is-prime", "=⊣°/×."),
+    ("neg-abs", "¯⌵"),
+    ("square-abs", "×.⌵"),
+    ("pow2", "ⁿ2"),
+    ("pow-neg1", "ⁿ¯1"),
+    ("transpose2", "⍉⍉"),
+];
+/// how the argument gets its marks: run-time producers (the mark is really set) and nothing
+/// (a literal constant with ordered rows gets derived marks)
+const MARKERS: &[&str] = &["", "⍆", "⇌⍆", "⊏⊸⍏", "⊏⊸⍖", "⇌", "⍆⇌", "¯⍆"];
+/// arrays with ties at the extremes (repeated maximum / minimum), rank 1 and rank 2, some
+/// written in order (derived marks), some not
+const TIED: &[&str] = &[
+    "[3 1 3 2]", "[1 1 2 3]", "[1 2 3 3]", "[3 3 2 1]", "[3 2 1 1]", "[2 2]", "[1 1 1]", "[0 0 1 1]", "[1 1 0 0]",
+    "[1 3 1 3]", "[0 1 1]", "[2 0 2]", "[1 0 1 0]", "[5]", "[1.5 0.5 1.5 0.5]", "[¯1 ¯1 0 2 2]",
+    "\"abba\"", "\"aabb\"", "\"bbaa\"", "\"zz\"",
+    "[[1 2] [3 4] [3 4] [0 0]]", "[[3 4] [1 2] [3 4]]", "[[1 1] [1 1]]", "[[0 1] [0 1] [2 2]]",
+    "[[1 2] [1 2] [3 4] [3 4]]", "[[3 4] [3 4] [1 2] [1 2]]", "[[0 0] [1 1] [0 0] [1 1]]", "[[2 1] [2 1]]",
+    "[\"ab\" \"cd\" \"cd\" \"ab\"]", "[\"ab\" \"ab\" \"cd\" \"cd\"]", "[[1 0 1] [0 1 1]]", "[[1 1 0] [1 1 0] [0 0 0]]",
+];
+
+/// the directed family as (rule, source)
+fn marked_family() -> Vec<(String, String)> {
+    let mut out = Vec::new();
+    for (rule, snip) in MARK_RULES {
+        for m in MARKERS {
+            for lit in TIED {
+                // on one line, behind a function, and inside rows (each row is marked at run time)
+                out.push((rule.to_string(), format!("# Experimental!\n{snip} {m} {lit}\n")));
+                if m.len() > 0 && lit.starts_with("[[") {
+                    out.push((rule.to_string(), format!("# Experimental!\n≡({snip} {m}) {lit}\n")));
+                }
+            }
+        }
+        // the argument arrives through a function boundary and through a constant binding
+        for lit in TIED.iter().step_by(3) {
+            out.push((rule.to_string(), format!("# Experimental!\nF ← {snip}\nX ← ⍆ {lit}\nF X\n")));
+            out.push((rule.to_string(), format!("# Experimental!\nF ← {snip}\nF ⇌⍆ {lit}\n")));
+        }
+    }
+    out
+}
+
+/// a value as a term of Model/Prims.v `arr` (integers and characters of rank >= 1 only)
+fn prims_arr(v: &Value) -> Option<String> {
+    let sh = format!("[{}]%nat", v.shape.iter().map(|d| d.to_string()).collect::<Vec<_>>().join(";"));
+    let nums = |xs: Vec<f64>| -> Option<String> {
+        let mut items = Vec::new();
+        for x in xs {
+            if x.fract() != 0.0 || x.abs() > 1e15 {
+                return None;
+            }
+            items.push(format!("ENum ({})", x as i64));
+        }
+        Some(format!("(Prims.Arr TNum {sh} [{}]%Z)", items.join(";")))
+    };
+    match v {
+        Value::Num(a) => nums(a.elements().copied().collect()),
+        Value::Byte(a) => nums(a.elements().map(|b| *b as f64).collect()),
+        Value::Char(a) => Some(format!(
+            "(Prims.Arr TChar {sh} [{}])",
+            a.elements().map(|c| format!("EChar {}%N", *c as u32)).collect::<Vec<_>>().join(";")
+        )),
+        _ => None,
+    }
+}
+
+/// fused implementation primitives that the Coq development gives a semantics to:
+/// (id in Proofs/Opt.v prim_sem, source of the left-hand side, name in the optimised tree)
+const FUSED: &[(u64, &str, &str)] = &[
+    (102, "⊢⍏", "FirstMinIndex"),
+    (103, "⊣⍖", "LastMinIndex"),
+    (104, "⊢⍖", "FirstMaxIndex"),
+    (105, "⊣⍏", "LastMaxIndex"),
+    (112, "⧻◴", "CountUnique"),
+];
+
+
 fn main() {
     let mode = std::env::args().nth(1).unwrap_or_default();
     let n: usize = std::env::args().nth(2).and_then(|s| s.parse().ok()).unwrap_or(500);
@@ -720,6 +830,12 @@ fn main() {
                 progs.push((rule.to_string(), format!("# Experimental!\n{src}\n"), vec![], if empty { vec!["[]".into()] } else { vec![] }));
             }
             let regression = progs.len();
+            // directed family: marked (sorted up / down) arguments with tied extremes
+            let family = marked_family();
+            let family_n = family.len();
+            for (rule, src) in family {
+                progs.push((rule, src, vec![], vec![]));
+            }
             for _ in 0..n {
                 let p = gen_prog(&mut r);
                 let args: Vec<Value> = (0..p.nargs).map(|_| gen_value(&mut r, &cfg, 0)).collect();
@@ -798,8 +914,48 @@ fn main() {
                 }
             }
             let pr: Vec<String> = per_rule.iter().map(|(k, v)| format!("{}:[{},{}]", jstr(k), v.0, v.1)).collect();
-            println!("{{\"summary\":true,\"regression_programs\":{regression},\"programs\":{},\"reference_ok\":{},\"reference_err\":{},\"violations\":{},\"converse\":{},\"corpus_items\":{},\"corpus_reference_ok\":{},\"per_rule_ok_err\":{{{}}}}}",
+            println!("{{\"summary\":true,\"regression_programs\":{regression},\"marked_tied_programs\":{family_n},\"programs\":{},\"reference_ok\":{},\"reference_err\":{},\"violations\":{},\"converse\":{},\"corpus_items\":{},\"corpus_reference_ok\":{},\"per_rule_ok_err\":{{{}}}}}",
                 progs.len(), a_ok, a_err, viol, conv, corpus_n, corpus_ok, pr.join(","));
+        }
+        "fusedtie" => {
+            // C: the semantics given to the fused primitives in Coq against the implementation,
+            // on marked / unmarked arguments with tied extremes
+            let mut total = 0usize;
+            let mut errs = 0usize;
+            for (id, snip, name) in FUSED {
+                for m in MARKERS {
+                    for lit in TIED.iter().chain(["[]", "\"\"", "↯0_2 0", "[7 7 7 7]", "⇡4", "[[5 5] [5 5] [5 5]]"].iter()) {
+                        let arg_src = format!("# Experimental!\n{m} {lit}\n");
+                        let arg = run_cfg(&arg_src, &[], 0, 2000);
+                        if !arg.ok || arg.stack.len() != 1 {
+                            continue;
+                        }
+                        let Some(term) = prims_arr(&arg.stack[0]) else { continue };
+                        if arg.stack[0].rank() == 0 {
+                            continue;
+                        }
+                        let src = format!("# Experimental!\n{snip} {m} {lit}\n");
+                        // the optimised tree must really contain the fused primitive
+                        let Ok(asm) = compile(&src, PreEvalMode::Lazy) else { continue };
+                        if !format!("{:?}", asm.root).contains(name) {
+                            continue;
+                        }
+                        let o = run_cfg(&src, &[], 1, 2000);
+                        let val = if o.ok && o.stack.len() == 1 { ints_of(&o.stack).map(|v| v[0]) } else { None };
+                        if o.ok && val.is_none() {
+                            continue;
+                        }
+                        total += 1;
+                        if !o.ok {
+                            errs += 1;
+                        }
+                        let (up, down) = { let f = uiua::verif::flags(&arg.stack[0]); (f.1, f.2) };
+                        println!("{{\"id\":{id},\"arr\":{},\"ok\":{},\"val\":{},\"src\":{},\"marked_up\":{up},\"marked_down\":{down}}}",
+                            jstr(&term), o.ok, val.unwrap_or(0), jstr(&src));
+                    }
+                }
+            }
+            println!("{{\"summary\":true,\"cases\":{total},\"error_cases\":{errs}}}");
         }
         _ => {
             eprintln!("usage: c01 vtie|pushtie|search N | one SRC");
